@@ -801,4 +801,127 @@ deriving DecidableEq, Repr, Inhabited
 def getNode (tags : List String) (defaultErr : Bool) (tag : String) : GetNode :=
   if tags.contains tag then .unmarshal else if defaultErr then .error else .trap
 
+/-! ## 5. JSON documents → AST: what a decoded expression must satisfy to be evaluated -/
+
+/-- A JSON value (arrays and objects as cons chains, so that the type is not nested). -/
+inductive JV where
+  | null | bool (b : Bool) | num | str (s : String)
+  | anil | acons (h t : JV)                      -- array
+  | onil | ocons (k : String) (v rest : JV)      -- object
+deriving DecidableEq, Repr, Inhabited
+
+/-- `JSONNode.Field`: the value of a key, if the value is an object that has it. -/
+def getField : JV → String → Option JV
+  | .ocons k v rest, f => if k == f then some v else getField rest f
+  | _, _ => none
+
+/-- A decoded expression node, as far as evaluation can go wrong on it. -/
+inductive ENode where
+  | nilNode                                       -- a nil `Node` interface
+  | leaf (tag : String)                           -- number, duration, bool, string, reference, identifier, star
+  | regex (re : Option String)                    -- `RegexNode.Regex` (nil = none)
+  | unary (n : ENode)
+  | binary (op : String) (l r : ENode)
+  | func (args : ENode)                           -- args as a chain of `acons`
+  | list (nodes : ENode)
+  | lambda (e : ENode)
+  | anil | acons (h t : ENode)
+deriving DecidableEq, Repr, Inhabited
+
+def leafTags : List String := ["number", "duration", "bool", "string", "reference", "identifier", "star"]
+
+/-- `JSONNode.NodeList`: null and `[]` give the empty list, every element goes through `getNode`. -/
+def decodeList (dec : JV → Option ENode) : Nat → JV → Option ENode
+  | _, .null => some .anil
+  | _, .anil => some .anil
+  | 0, _ => none
+  | f + 1, .acons h t =>
+    match dec h, decodeList dec f t with
+    | some h', some t' => some (.acons h' t')
+    | _, _ => none
+  | _, _ => none
+
+/-- `JSONNode.Node(field)`: the field must exist and go through `getNode`. -/
+def decField (dec : JV → Option ENode) (j : JV) (f : String) : Option ENode :=
+  match getField j f with
+  | some x => dec x
+  | none => none
+
+/-- `JSONNode.NodeList(field)`. -/
+def decListField (dec : JV → Option ENode) (k : Nat) (j : JV) (f : String) : Option ENode :=
+  match getField j f with
+  | some x => decodeList dec k x
+  | none => none
+
+/-- `JSONNode.getNode` + the `unmarshal` methods (tick/ast/json.go, node.go), as far as the SHAPE of the
+result goes (`none` = an error is returned; literal syntax errors — number formats, `regexp.Compile`,
+operator names — are errors too and abstracted as success). `nullRegex` / `nullNode`: the accessors
+`Regex` / `Node` answer `(nil, nil)` for a JSON null (extracted; false in the source today).
+`NodeList` maps null to the EMPTY list, never to a nil element. -/
+def decodeJ (nullRegex nullNode : Bool) : Nat → JV → Option ENode
+  | 0, _ => none
+  | k + 1, j =>
+    match j with
+    | .null => if nullNode then some .nilNode else none     -- `nn.(map[string]interface{})` fails on nil
+    | _ =>
+      let dec := fun x => decodeJ nullRegex nullNode k x
+      match getField j "typeOf" with
+      | some (.str tag) =>
+        if tag == "regex" then
+          match getField j "regex" with
+          | some (.str s) => some (.regex (some s))
+          | some .null => if nullRegex then some (.regex none) else none
+          | _ => none
+        else if tag == "unary" then
+          match decField dec j "node" with
+          | some n => some (.unary n)
+          | none => none
+        else if tag == "binary" then
+          match getField j "operator", decField dec j "left", decField dec j "right" with
+          | some (.str op), some l, some r => some (.binary op l r)
+          | _, _, _ => none
+        else if tag == "func" then
+          match decListField dec k j "args" with
+          | some a => some (.func a)
+          | none => none
+        else if tag == "list" then
+          match decListField dec k j "nodes" with
+          | some a => some (.list a)
+          | none => none
+        else if tag == "lambda" then
+          match decField dec j "expression" with
+          | some e => some (.lambda e)
+          | none => none
+        else if leafTags.contains tag then some (.leaf tag) else none
+      | _ => none
+
+/-- Well-formed decoded AST: no nil node, no nil regexp anywhere. -/
+def ENode.wf : ENode → Bool
+  | .nilNode => false
+  | .leaf _ => true
+  | .regex re => re.isSome
+  | .unary n => n.wf
+  | .binary _ l r => l.wf && r.wf
+  | .func a => a.wf
+  | .list a => a.wf
+  | .lambda e => e.wf
+  | .anil => true
+  | .acons h t => h.wf && t.wf
+
+/-- Does evaluating / formatting the node reach a nil dereference: a method call on a nil `Node`
+(`nilNode` as an operand, argument or element), or `MatchString` on the nil regexp of a `=~` / `!~`. -/
+def ENode.evalTraps : ENode → Bool
+  | .nilNode => true
+  | .leaf _ => false
+  | .regex _ => false
+  | .unary n => n.evalTraps
+  | .binary op l r =>
+    l.evalTraps || r.evalTraps ||
+      ((op == "=~" || op == "!~") && (match r with | .regex none => true | _ => false))
+  | .func a => a.evalTraps
+  | .list a => a.evalTraps
+  | .lambda e => e.evalTraps
+  | .anil => false
+  | .acons h t => h.evalTraps || t.evalTraps
+
 end Kap.C05
